@@ -1889,7 +1889,7 @@ class AstEval:
         kwargs = {}
         for kw_arg in arg.keywords:
             if kw_arg.arg is None:
-                for key, val in (await self.aeval(kw_arg.value)).items():
+                for key, val in dict(await self.aeval(kw_arg.value)).items():
                     if key in kwargs:
                         raise TypeError(f"got multiple values for keyword argument '{key}'")
                     kwargs[key] = val
